@@ -576,7 +576,7 @@ def sur_case(ctx, S, cid, r, cls, N, n, ops):
         ctx.maxstat("history_length", c + 1)
         if not P:
             continue
-        suffix = ""
+        fresh_whats = None
         if c > 0:
             # history dependent?  same call, same seed, fresh object
             ok, f = ctx.call(S, before.data.copy(), silence_level=3)
@@ -587,9 +587,11 @@ def sur_case(ctx, S, cid, r, cls, N, n, ops):
                     warnings.simplefilter("ignore")
                     _, Pf = sur_op(ctx, S, f, before.clone(), cls, op, seed,
                                    False)
-                if not Pf:
-                    suffix = ":repeated-call"
+                fresh_whats = {w for w, _ in Pf}
         for what, det in P:
+            # history dependent iff a fresh object keeps this guarantee
+            suffix = ":repeated-call" if (fresh_whats is not None and
+                                          what not in fresh_whats) else ""
             if what.endswith("non-finite-output") and op[0] == "raaft":
                 # diagnostic only: which Fourier coefficient of the iterate
                 # that fed the last refinement step was exactly zero?
